@@ -86,7 +86,7 @@ def defects(draw, design):
            "read_child_wire", "write_child_wire", "write_own_inport", "write_child_outport", "child_out_to_own_in",
            "loopback_inside", "two_levels", "op_eq_update", "op_ilshift_update", "op_eq_ff", "op_imatmul_ff",
            "ff_slice", "ff_field", "op_second_eq_update", "op_second_ilshift_update", "op_second_imatmul_ff",
-           "op_second_eq_ff", "deep_conflict", "deep_conflict", "deep_disjoint_legal",
+           "op_second_eq_ff", "op_after_good_update", "op_after_good_ff", "deep_conflict", "deep_conflict", "deep_disjoint_legal",
            "const_own_inport", "const_child_outport", "const_child_wire", "const_grandchild_inport", "const_legal"]
   kind = draw(st.sampled_from(kinds))
   if kind == "none": return None
@@ -351,6 +351,21 @@ def defects(draw, design):
     d["raw_groups"].append(blk([f"s.opw <<= 1", "if s.reset:", f"  s.opw @= 0"], "@update_ff")); d["expect"] = [UF]; d["nontrivial"] = True
   elif kind == "op_second_eq_ff":
     d["raw_groups"].append(blk([f"s.opw <<= 1", "if s.reset:", f"  s.opw = Bits{w}(0)"], "@update_ff")); d["expect"] = [UF]; d["nontrivial"] = True
+  elif kind in ("op_after_good_update", "op_after_good_ff"):
+    # the wrong operator on a second signal, right after a correct assignment inside the same compound statement
+    # (if body / else body / for body / nested if)
+    ff = kind.endswith("_ff")
+    good = "<<=" if ff else "@="
+    bad = draw(st.sampled_from(["=", "@="] if ff else ["=", "<<="]))
+    d["raw_decl"].append(f"s.opw2 = Wire( Bits{w} )")
+    g, b_ = f"s.opw {good} 1", (f"s.opw2 {bad} Bits{w}(1)" if bad == "=" else f"s.opw2 {bad} 1")
+    shape = draw(st.integers(0, 4))
+    if shape == 0: body = ["if s.reset:", "  " + g, "  " + b_]
+    elif shape == 1: body = ["if s.reset:", "  " + g, "else:", "  " + g, "  " + b_]
+    elif shape == 2: body = ["for i in range(2):", "  " + g, "  " + b_]
+    elif shape == 3: body = ["if s.reset:", "  if s.reset:", "    " + g, "  " + b_]
+    else: body = ["if s.reset:", "  " + g, "  if s.reset:", "    " + b_]
+    d["raw_groups"].append(blk(body, "@update_ff" if ff else "@update")); d["expect"] = [UF if ff else UB]; d["nontrivial"] = True
   elif kind == "ff_slice": d["raw_groups"].append(blk([f"s.opw[0:1] <<= 1"], "@update_ff")); d["expect"] = [UN]
   elif kind == "ff_field":
     d["raw_decl"] = ["s.opst = Wire( BadOpStruct )"]
